@@ -41,6 +41,31 @@ theorem c03_source_facts :
     IpcHub.Gen.progRemoveAndCloseAll.take 2 = ["m.l.Lock", "defer m.l.Unlock"] := by
   decide
 
+/-- position of the first occurrence -/
+def idxOf (x : String) (l : List String) : Nat := (l.findIdx? (· = x)).getD l.length
+
+/-- `rel` is called in the function's first deferred closure, which is registered before the
+    single `add`, with no `return` between the registration and the `add` (so no exit path can
+    release without having added, and every exit path after the `add` — return or panic —
+    releases exactly once) -/
+def balancedCounter (rel add : String) (prog : List String) : Bool :=
+  countOf add prog = 1 && countOf rel prog = 1 &&
+  subseq ["defer func", rel, add] prog &&
+  countOf "return" ((prog.take (idxOf add prog)).drop (idxOf "defer func" prog)) = 0
+
+/-- Per-protocol active-connection counters: every service entry point that counts a connection
+    (RTSP session, pull client, WSP session, HTTP-FLV, WebSocket-FLV) is balanced. -/
+theorem c03_conn_counters :
+    balancedCounter "stats.RtspConns.Release" "stats.RtspConns.Add" IpcHub.Gen.progRtspSessionProcess = true ∧
+    balancedCounter "stats.RtspConns.Release" "stats.RtspConns.Add" IpcHub.Gen.progPullPlayStream = true ∧
+    balancedCounter "stats.WspConns.Release" "stats.WspConns.Add" IpcHub.Gen.progWspSessionProcess = true ∧
+    balancedCounter "stats.FlvConns.Release" "stats.FlvConns.Add" IpcHub.Gen.progHttpFlvConsume = true ∧
+    balancedCounter "stats.FlvConns.Release" "stats.FlvConns.Add" IpcHub.Gen.progWsFlvConsume = true ∧
+    -- the FLV entry points detach their consumer in the same deferred closure
+    subseq ["defer func", "stream.StopConsume", "stats.FlvConns.Release"] IpcHub.Gen.progHttpFlvConsume = true ∧
+    subseq ["defer func", "stream.StopConsume", "stats.FlvConns.Release"] IpcHub.Gen.progWsFlvConsume = true := by
+  decide
+
 /-- the worker-protocol configuration of the current source tree -/
 def genWorkerCfg : IpcHub.Worker.Cfg :=
   { wakeViaPush := subseq ["set c.closed", "c.recvQueue.Push"] IpcHub.Gen.progConsClose
